@@ -410,3 +410,55 @@ MUTANTS["C02"] = [
     M("optimise_also_fixed", CLI, "    if not args.fixed:\n        semantics.assign_optimal_throughput(kernel)", "    if True:\n        semantics.assign_optimal_throughput(kernel)", "P6"),
     M("budget_doubled", ARCH, "for _ in range(int(cycles * (1 / INC))):", "for _ in range(int(2 * cycles * (1 / INC))):", "P2"),
 ]
+
+_CP_NEW = '''            dg = self.dg.copy()
+            sink = "sink"
+            for instruction_form in self.kernel:
+                if dg.has_node(instruction_form.line_number + 0.1):
+                    # load is modeled as separate node, its latency is bound to the edge from it
+                    last_latency = instruction_form.latency_wo_load
+                else:
+                    last_latency = instruction_form.latency
+                dg.add_edge(instruction_form.line_number, sink, latency=last_latency)
+            longest_path = nx.algorithms.dag.dag_longest_path(dg, weight="latency")
+            for line_number in longest_path[:-1]:
+                self._get_node_by_lineno(int(line_number)).latency_cp = 0
+            # set cp latency to instruction
+            for s, d in nx.utils.pairwise(longest_path):
+                node = self._get_node_by_lineno(int(s))
+                node.latency_cp += dg.edges[(s, d)]["latency"]
+            return [x for x in self.kernel if x.line_number in longest_path[:-1]]
+'''
+_CP_OLD = '''            max_latency_instr = max(self.kernel, key=lambda k: k.latency)
+            longest_path = nx.algorithms.dag.dag_longest_path(self.dg, weight="latency")
+            for line_number in longest_path:
+                self._get_node_by_lineno(int(line_number)).latency_cp = 0
+            path_latency = 0.0
+            for s, d in nx.utils.pairwise(longest_path):
+                node = self._get_node_by_lineno(int(s))
+                node.latency_cp = self.dg.edges[(s, d)]["latency"]
+                path_latency += node.latency_cp
+            node = self._get_node_by_lineno(int(longest_path[-1]))
+            node.latency_cp = node.latency
+            if max_latency_instr.latency > path_latency:
+                max_latency_instr.latency_cp = float(max_latency_instr.latency)
+                return [max_latency_instr]
+            else:
+                return [x for x in self.kernel if x.line_number in longest_path]
+'''
+
+MUTANTS["C04"] = [
+    M("revert_cp_fix", KDG, _CP_NEW, _CP_OLD, "R3", "revert of the fix"),
+    M("weight_key_wrong", KDG, 'longest_path = nx.algorithms.dag.dag_longest_path(dg, weight="latency")', 'longest_path = nx.algorithms.dag.dag_longest_path(dg, weight="lat")', "R1"),
+    M("search_without_sink", KDG, 'longest_path = nx.algorithms.dag.dag_longest_path(dg, weight="latency")', 'longest_path = nx.algorithms.dag.dag_longest_path(self.dg, weight="latency") + [sink]', None),
+    M("overwrite_not_accumulate", KDG, '                node.latency_cp += dg.edges[(s, d)]["latency"]', '                node.latency_cp = dg.edges[(s, d)]["latency"]', "R3"),
+    M("terminal_always_full_latency", KDG, "                    last_latency = instruction_form.latency_wo_load\n", "                    last_latency = instruction_form.latency\n", "R3"),
+    M("terminal_zero", KDG, "                dg.add_edge(instruction_form.line_number, sink, latency=last_latency)", "                dg.add_edge(instruction_form.line_number, sink, latency=0)", "R3"),
+    M("sink_only_for_some", KDG, "            for instruction_form in self.kernel:\n                if dg.has_node(instruction_form.line_number + 0.1):", "            for instruction_form in self.kernel[1:]:\n                if dg.has_node(instruction_form.line_number + 0.1):", "R3"),
+    M("modifies_shared_graph", KDG, "            dg = self.dg.copy()\n            sink", "            dg = self.dg\n            sink", "R3"),
+    M("no_int_normalisation", KDG, "                node = self._get_node_by_lineno(int(s))\n                node.latency_cp +=", "                node = self._get_node_by_lineno(s)\n                node.latency_cp +=", None),
+    M("other_edge_reported", KDG, '                node.latency_cp += dg.edges[(s, d)]["latency"]', '                node.latency_cp += dg.edges[(d, s)]["latency"]', "R3"),
+    M("dict_total_from_latency", FE, '"CriticalPath": sum([x.latency_cp for x in cp_kernel]),', '"CriticalPath": sum([x.latency for x in cp_kernel]),', "R4"),
+    M("returns_all_lines", KDG, "            return [x for x in self.kernel if x.line_number in longest_path[:-1]]", "            return [x for x in self.kernel]", "R5"),
+    M("load_node_other_offset", KDG, "                dg.add_node(instruction_form.line_number + 0.1)\n", "                dg.add_node(instruction_form.line_number + 0.5)\n", "R2"),
+]
